@@ -548,7 +548,7 @@ Proof.
       - discriminate.
       - rewrite last_seq. cbn [hd]. rewrite Hnx.
         replace (base + m') with p by (unfold p; lia). rewrite Nat.eqb_refl.
-        f_equal. unfold q. lia. }
+        unfold q; f_equal; lia. }
     assert (PC2 : pchain h2 (seq base (S (S m')))).
     { rewrite (seq_S (S m')). apply (pchain_join _ _ _ 0).
       - apply (pchain_frame h); [|exact PC]. intros x Hx.
@@ -561,7 +561,7 @@ Proof.
       - discriminate.
       - rewrite last_seq. cbn [hd]. rewrite Hpv.
         replace (base + S m') with q by (unfold q; lia). rewrite Nat.eqb_refl.
-        f_equal. unfold p. lia. }
+        unfold p; f_equal; lia. }
     destruct (IH h2 (S (S m')) base) as (h' & E & T' & NC' & PC' & F' & V1 & V2);
       [lia | unfold h2, h1, q; cbn; lia | exact NC2 | exact PC2 |].
     exists h'. replace (base + S (S m') - 1) with q in E by (unfold q; lia).
